@@ -130,6 +130,74 @@ theorem good_key_length (tu sv ct rd ir td : Bool) (tf : TrustedFile) (p : Polic
     · exact ⟨lo, hi, rfl, hb.1, hb.2⟩
     · simp [hb] at hk
 
+/-! ### the flag setters: each touches exactly one flag; a long-lived store decides by the flags as
+last set individually -/
+
+theorem setSkip_only (f : Flags) (b : Bool) :
+    (f.setSkip b).skipVerify = b ∧ (f.setSkip b).trustUnknown = f.trustUnknown ∧ (f.setSkip b).checkTime = f.checkTime :=
+  ⟨rfl, rfl, rfl⟩
+
+theorem setTrust_only (f : Flags) (b : Bool) :
+    (f.setTrust b).trustUnknown = b ∧ (f.setTrust b).skipVerify = f.skipVerify ∧ (f.setTrust b).checkTime = f.checkTime :=
+  ⟨rfl, rfl, rfl⟩
+
+theorem setTime_only (f : Flags) (b : Bool) :
+    (f.setTime b).checkTime = b ∧ (f.setTime b).skipVerify = f.skipVerify ∧ (f.setTime b).trustUnknown = f.trustUnknown :=
+  ⟨rfl, rfl, rfl⟩
+
+inductive Setter where
+  | skip | trust | time
+deriving Repr, DecidableEq
+
+def Flags.get (f : Flags) : Setter → Bool
+  | .skip => f.skipVerify | .trust => f.trustUnknown | .time => f.checkTime
+
+def Flags.apply (f : Flags) (op : Setter × Bool) : Flags :=
+  match op.1 with
+  | .skip => f.setSkip op.2 | .trust => f.setTrust op.2 | .time => f.setTime op.2
+
+/-- the value a setter was last called with in a sequence of setter calls -/
+def lastSet (k : Setter) : List (Setter × Bool) → Option Bool
+  | [] => none
+  | op :: rest => match lastSet k rest with
+    | some v => some v
+    | none => if op.1 = k then some op.2 else none
+
+/-- **Any sequence of setter calls**: afterwards every flag has the value its OWN setter was last
+called with, or its initial value if that setter was never called — no setter has a side effect on
+another flag, in any order, any number of times. -/
+theorem flags_as_last_set (ops : List (Setter × Bool)) (f : Flags) (k : Setter) :
+    (ops.foldl Flags.apply f).get k = (lastSet k ops).getD (f.get k) := by
+  induction ops generalizing f with
+  | nil => rfl
+  | cons op rest ih =>
+    simp only [List.foldl_cons, lastSet]
+    rw [ih]
+    cases h : lastSet k rest with
+    | some v => rfl
+    | none =>
+      obtain ⟨s, b⟩ := op
+      cases s <;> cases k <;> simp [Flags.apply, Flags.get, Flags.setSkip, Flags.setTrust, Flags.setTime]
+
+/-- a validation on a long-lived store is the table row made of the flags as they stand and the
+directory state the earlier calls left -/
+theorem live_check_good_iff (l : Live) (k : KeyCheck) (tm : TimeV) (ho : HostV) (ur : UriV) :
+    (l.check k tm ho ur).1.status = some .good ↔
+      Acceptable l.flags.trustUnknown l.flags.skipVerify l.flags.checkTime l.rejDir l.inRej l.trDir l.trusted k tm ho ur :=
+  good_iff _ _ _ _ _ _ _ _ _ _ _
+
+/-- in particular: with verification not skipped and `check_time` on (as last set), an expired or
+not-yet-valid certificate is never accepted, whatever was set and unset before -/
+theorem live_time_enforced (l : Live) (k : KeyCheck) (tm : TimeV) (ho : HostV) (ur : UriV)
+    (hs : l.flags.skipVerify = false) (hc : l.flags.checkTime = true) (ht : tm ≠ .valid) :
+    (l.check k tm ho ur).1.status ≠ some .good := by
+  intro h
+  have := ((live_check_good_iff l k tm ho ur).mp h).2.2.2.2.2
+  rcases this with h1 | ⟨h2 | h2, _⟩
+  · rw [hs] at h1; exact absurd h1 (by decide)
+  · rw [hc] at h2; exact absurd h2 (by decide)
+  · exact ht h2
+
 /-! ### the model's key ranges are the ones in the source (translator T2) -/
 
 def Policy.rustName : Policy → String
